@@ -107,7 +107,13 @@ class HHAdd(Contract):
 
     def _inv(self, F, L):
         k = L.k
-        yield "x-done", F.forall([(0, k)], lambda r: self.row_done(F, L.cur, r))
+        if L.phase == "preserve":
+            # proof script: the row just processed obeys the cell rule; earlier rows are untouched by
+            # this iteration (they were done before); x-done is then the union of the two
+            k0 = L.k_header
+            yield "lemma:row-just-processed-obeys-the-cell-rule", self.row_done(F, L.cur, k0)
+            yield "lemma:earlier-rows-stay-done", F.forall([(0, k0)], lambda r: self.row_done(F, L.cur, r))
+        yield ("from-lemmas:" if L.phase == "preserve" else "") + "x-done", F.forall([(0, k)], lambda r: self.row_done(F, L.cur, r))
         yield "x-rest", F.forall([(0, F.depth)], lambda r: z3.Implies(r >= k, self.row_same(F, L.cur, r)))
         yield "counters", z3.And(
             L.cur.n_added_records(0) == L.entry.n_added_records(0), L.cur.n_added_records(1) == L.entry.n_added_records(1)
